@@ -356,6 +356,7 @@ loop:
 	if err != nil {
 		return err, true
 	}
+	pc = len(env.codes) // the iterator is exhausted: do not resume
 	return nil, false
 }
 
